@@ -544,7 +544,8 @@ def run_gloo(ctx: Ctx, cfg: Dict[str, Any], idx: int, verbose: bool = False):
              for r in range(W)]
     outs, timed_out = [], False
     import time
-    t_end = time.time() + 60          # watchdog: a collective mismatch is a hang on a real process group
+    import sim as _sim
+    t_end = time.time() + 3 * _sim.wait_limit()   # watchdog (60 s, scaled with machine load): a collective mismatch is a hang on a real process group
     for p in procs:
         try:
             o, _ = p.communicate(timeout=max(1, t_end - time.time()))
@@ -559,7 +560,7 @@ def run_gloo(ctx: Ctx, cfg: Dict[str, Any], idx: int, verbose: bool = False):
         res.append(json.load(open(f)) if os.path.exists(f) else None)
     full = dict(cfg, gloo=True)
     if timed_out or any(x is None for x in res):
-        ctx.fail("gloo-hang-or-crash", "real gloo job did not complete within 60 s on every rank (hang = collective mismatch)", full,
+        ctx.fail("gloo-hang-or-crash", "real gloo job did not complete within the watchdog on every rank (hang = collective mismatch)", full,
                  {"timed_out": timed_out, "tails": outs})
     else:
         for r, x in enumerate(res):
